@@ -241,8 +241,13 @@ func (c *Conversation) rotateKeys(dataMessage dataMsg) error {
 
 func (k *keyManagementContext) rotateOurKeys(recipientKeyID uint32, randomness io.Reader) error {
 	if recipientKeyID == k.ourKeyID {
-		k.revealMACKeysForOurPreviousKeyID()
-		return k.generateNewDHKeyPair(randomness)
+		// the previous key is only retired, and its MAC keys queued for disclosure,
+		// once its successor exists
+		retired := k.ourKeyID - 1
+		if err := k.generateNewDHKeyPair(randomness); err != nil {
+			return err
+		}
+		k.oldMACKeys = append(k.oldMACKeys, k.macKeyHistory.forgetMACKeysForOurKey(retired)...)
 	}
 	return nil
 }
